@@ -89,6 +89,8 @@ def run(ctx, prog, res, thorough=False):
     Y = 2003  # window 2002..2005 contains the leap year 2004
     y0, y1 = Y - 1, Y + 2
     n_f = n_h = 0
+    past = None
+    MN = ["Jan", "Feb", "Mar", "Apr", "May", "Jun", "Jul", "Aug", "Sep", "Oct", "Nov", "Dec"]
     bad = None
     try:
         for year in (None, ("some", Y)):
@@ -125,20 +127,23 @@ def run(ctx, prog, res, thorough=False):
                             if h is None:
                                 continue
                             h = h[1]
+                            if h <= date and past is None:
+                                past = ("`%s%s-%s`" % (("%d " % year[1]) if year else "", MN[s - 1], MN[e - 1]), date, h)
                             nc = next_change(date)
                             if nc is not None and h > nc and bad is None:
                                 bad = (year, s, e, date, h, nc)
     except peval.Unmodelled as ex:
         r8.fail("C02.R8:unmodelled", "the month-range arms of MonthdayRange cannot be evaluated from their MIR any more (%s): not decided, failing closed" % ex, lib.where_of(hint))
         return
-    MN = ["Jan", "Feb", "Mar", "Apr", "May", "Jun", "Jul", "Aug", "Sep", "Oct", "Nov", "Dec"]
     msg = None
     if bad:
         year, s, e, date, h, nc = bad
         msg = "`%s%s-%s`: asked on %04d-%02d-%02d the hint promises no change before %04d-%02d-%02d, but the filter changes on %04d-%02d-%02d: the days in between are skipped" % (
             ("%d " % year[1]) if year else "", MN[s - 1], MN[e - 1], *date, *h, *nc)
+    r8.check(past is None, {"month_pairs": 144, "every_dated_hint": "strictly after the day it was asked on"}, "C02.R8:not-after",
+             "" if past is None else "%s: asked on %04d-%02d-%02d the hint is %04d-%02d-%02d, not after that day: the iterator's progress assertion (`infinite loop detected`) panics" % (past[0], *past[1], *past[2]), lib.where_of(hint))
     r8.check(bad is None, {"month_pairs": 144, "year_forms": 2, "filter_evaluations": n_f, "hint_evaluations": n_h, "window": [y0, y1]}, "C02.R8:month-arm", msg or "", lib.where_of(hint))
-    r8.floor(1)
+    r8.floor(2)
 
 
 YR = "opening_hours_syntax::rules::day::YearRange"
@@ -153,6 +158,7 @@ def run_years(ctx, prog, res, thorough=False):
     steps = [1, 2, 3, 5, 65000] if not thorough else [1, 2, 3, 4, 5, 7, 9, 65000]
     y0, y1 = 1996, 2030
     n_f = n_h = 0
+    past = None
     bad = None
     cases = set()
     try:
@@ -178,6 +184,8 @@ def run_years(ctx, prog, res, thorough=False):
                                 continue
                             h = h[1]
                             cases.add("end" if h >= peval.DATE_END else "year")
+                            if h <= date and past is None:
+                                past = ("`%d-%d%s`" % (s, e, "/%d" % k if k != 1 else ""), date, h)
                             nc = next((yy for yy in range(y + 1, y1 + 1) if table[yy] != table[y]), None)
                             if nc is not None and h > (nc, 1, 1) and bad is None:
                                 bad = (s, e, k, date, h, nc)
@@ -188,6 +196,8 @@ def run_years(ctx, prog, res, thorough=False):
     if bad:
         s, e, k, date, h, nc = bad
         msg = "`%d-%d%s`: asked on %04d-%02d-%02d the hint promises no change before %04d-%02d-%02d, but the filter changes on %d-01-01: the days in between are skipped" % (s, e, "/%d" % k if k != 1 else "", *date, *h, nc)
+    r9.check(past is None, {"every_dated_hint": "strictly after the day it was asked on"}, "C02.R9:not-after",
+             "" if past is None else "%s: asked on %04d-%02d-%02d the hint is %04d-%02d-%02d, not after that day: the iterator's progress assertion (`infinite loop detected`) panics" % (past[0], *past[1], *past[2]), lib.where_of(hint))
     r9.check(bad is None, {"ranges": len(years) ** 2, "steps": steps, "filter_evaluations": n_f, "hint_evaluations": n_h, "hint_answers_seen": sorted(cases)}, "C02.R9:year-range", msg, lib.where_of(hint))
     r9.check({"year", "end"} <= cases, {"hint_cases_exercised": sorted(cases)}, "C02.R9:FLOOR", "FLOOR: the scope no longer exercises both a dated hint and the `never again` answer (%s)" % sorted(cases), lib.where_of(hint))
 
@@ -219,6 +229,7 @@ def run_weeks(ctx, prog, res, thorough=False):
         queries.append(peval.from_ordinal(peval.ordinal(d) + 6))
         d = peval.from_ordinal(peval.ordinal(d) + 7)
     n_f = n_h = 0
+    past = None
     bad = None
     answers = set()
     try:
@@ -241,6 +252,8 @@ def run_weeks(ctx, prog, res, thorough=False):
                             continue
                         h = h[1]
                         answers.add("date")
+                        if h <= q and past is None:
+                            past = ("`week %02d-%02d%s`" % (s, e, "/%d" % k if k != 1 else ""), q, h)
                         cur = val(q)
                         # first Monday after q where the table changes
                         m = peval.from_ordinal(peval.ordinal(q) - peval.weekday(q) + 7)
@@ -261,6 +274,8 @@ def run_weeks(ctx, prog, res, thorough=False):
     if bad:
         s, e, k, q, h, nc = bad
         msg = "`week %02d-%02d%s`: asked on %04d-%02d-%02d (ISO week %d) the hint promises no change before %04d-%02d-%02d, but the filter changes on %04d-%02d-%02d: the days in between are skipped" % (s, e, "/%d" % k if k != 1 else "", *q, peval.iso_week(q)[1], *h, *nc)
+    r10.check(past is None, {"every_dated_hint": "strictly after the day it was asked on"}, "C02.R10:not-after",
+              "" if past is None else "%s: asked on %04d-%02d-%02d the hint is %04d-%02d-%02d, not after that day: the iterator's progress assertion (`infinite loop detected`) panics" % (past[0], *past[1], *past[2]), lib.where_of(hint))
     r10.check(bad is None, {"week_ranges": sum(1 for s in weeks for e in weeks if s <= e), "steps": steps, "filter_evaluations": n_f, "hint_evaluations": n_h, "hint_answers_seen": sorted(answers)}, "C02.R10:week-range", msg, lib.where_of(hint))
     r10.check(wrap is None, {"wrapping_range_hint": "unknown"}, "C02.R10:wrapping", "the hint of the wrapping range `week 51-02` is %r: the filter matches weeks 51..53 and 1..2, a dated hint computed as for a range written in order skips a change" % (wrap,), lib.where_of(hint))
     r10.check("date" in answers, {"hint_answers_seen": sorted(answers)}, "C02.R10:FLOOR", "FLOOR: the scope no longer exercises a dated hint", lib.where_of(hint))
